@@ -2,6 +2,7 @@ import Pcore.Proofs.LatSoundMain
 import Pcore.Proofs.LatFam
 import Pcore.Proofs.DescribeWF
 import Pcore.Proofs.DescribeSig
+import Pcore.Proofs.DescribeLeaf
 set_option linter.unusedSimpArgs false
 set_option linter.unusedVariables false
 /-!
@@ -35,6 +36,8 @@ Full statement / proved / missing
 * `C19_path_valid`            — PROVED: every path is a valid position (`Pos`) of the expected type — whatever was merged or chopped.
 * `C19_prefix_kept`, `C19_names_subject` — PROVED: the given path stays a prefix; the subject element (first) is kept: "names the subject".
 * `C19_missingKey_real`, `C19_extraneousKey_real` — PROVED (the first for well-formed expected types; `C19_missingKey_real_any` without).
+* `C19_sizeMismatch_real_partial`, `C19_countMismatch_real_partial` — PROVED: for an expected type without Variant / Data / RichData
+  (`noMerge`) the actual range of every reported size / count mismatch is not inside the expected range.
 * `C19_sizeMismatch_real` (def, full statement: the reported actual range is never inside the reported expected range) — FALSE of the code:
   mergeMismatch replaces the expected range of merged size mismatches by the HULL of the members' ranges, which may contain the actual
   range (`C19_sizeMismatch_merged_hull`: Variant[Array[String,0,1], Array[String,5,6]] against Array[String,3,3] reports "size 0..6, got 3").
@@ -255,6 +258,22 @@ theorem C19_sizeMismatch_merged_hull (cfg : Cfg) :
     canonPath, chopPath, VRes.cons, Res.append, Mismatch.cls, Mismatch.path, Mismatch.setPath, subjectPath, PE.nat, isOptional, isAlias,
     asg, asgRecv, asgAnyL, sameNullary, Rng.sub, Rng.hull, isStringFamily]
   constructor <;> omega
+
+/-- PROVED part: for an expected type without Variant / Data / RichData at any position the describer can reach (`noMerge`: nothing is ever
+    merged) every reported size mismatch is real — the actual range is not inside the expected one … -/
+theorem C19_sizeMismatch_real_partial (cfg : Cfg) (sfh : Bool) (e a : Ty) (p q : Path) (er ar : Rng) (ms : List Mismatch)
+    (hnm : noMerge e = true) (h : describe cfg sfh e a p = .ok ms) (hm : Mismatch.sizeMismatch q er ar ∈ ms) : er.sub ar = false :=
+  describe_sizeReal_top cfg sfh e a p ms hnm h _ hm
+
+/-- … and so is every count mismatch (what a Tuple expectation reports for a size that does not fit) -/
+theorem C19_countMismatch_real_partial (cfg : Cfg) (sfh : Bool) (e a : Ty) (p q : Path) (er ar : Rng) (ms : List Mismatch)
+    (hnm : noMerge e = true) (h : describe cfg sfh e a p = .ok ms) (hm : Mismatch.countMismatch q er ar ∈ ms) : er.sub ar = false :=
+  describe_sizeReal_top cfg sfh e a p ms hnm h _ hm
+
+/-- the hypotheses are satisfiable: Array[String, 0, 5] against Array[String, 0, 7] -/
+example (cfg : Cfg) : noMerge (.array .str ⟨0, 5⟩) = true ∧
+    describe cfg true (.array .str ⟨0, 5⟩) (.array .str ⟨0, 7⟩) (subjectPath "x") = .ok [.sizeMismatch (subjectPath "x") ⟨0, 5⟩ ⟨0, 7⟩] := by
+  simp [noMerge, describe, internalDescribe, asg, asgRecv, sameNullary, Rng.sub, isStringFamily]
 
 theorem C19_sizeMismatch_real_false (cfg : Cfg) : ¬ C19_sizeMismatch_real cfg true := by
   intro h
